@@ -98,8 +98,21 @@ func rsaSign(keyName string, msg []byte) []byte {
 
 // spcContent builds SpcIndirectDataContent (inner value octets) carrying a digest.
 func spcContent(digest []byte) []byte {
+	if spcNameOverride != nil {
+		return spcContentNamed(digest, spcNameOverride)
+	}
 	obsolete := []byte{0x00, 0x3c, 0x00, 0x3c, 0x00, 0x3c, 0x00, 0x4f, 0x00, 0x62, 0x00, 0x73, 0x00, 0x6f, 0x00, 0x6c, 0x00, 0x65, 0x00, 0x74, 0x00, 0x65, 0x00, 0x3e, 0x00, 0x3e, 0x00, 0x3e}
 	data := derTLV(0x30, derOID(oidSpcPE), derTLV(0x30, []byte{0x03, 0x01, 0x00}, derTLV(0xa0, derTLV(0xa2, derTLV(0x80, obsolete)))))
+	di := derTLV(0x30, derAlg(oidSHA256), derTLV(0x04, digest))
+	return append(data, di...)
+}
+
+// spcNameOverride, when set, is written as the BMPSTRING file name of every SpcPeImageData built (robustness inputs: a name is UCS-2,
+// but nothing stops a signature from carrying an odd number of bytes there)
+var spcNameOverride []byte
+
+func spcContentNamed(digest, name []byte) []byte {
+	data := derTLV(0x30, derOID(oidSpcPE), derTLV(0x30, []byte{0x03, 0x01, 0x00}, derTLV(0xa0, derTLV(0xa2, derTLV(0x80, name)))))
 	di := derTLV(0x30, derAlg(oidSHA256), derTLV(0x04, digest))
 	return append(data, di...)
 }
